@@ -47,6 +47,9 @@ ASSUMPTIONS = ["stdin is not a TTY", "command vectors avoid the C18 known classe
 
 HOOK = "#!/bin/sh\necho \"$(basename $0) $*\" >> \"$(git rev-parse --git-dir)/userhook.log\"\nexit 0\n"
 
+REFTX_HOOK = ("#!/bin/sh\nd=\"$(git rev-parse --git-dir)\"\nwhile read old new ref; do\n"
+              "  echo \"reference-transaction $1 $ref\" >> \"$d/userhook.log\"\ndone\nexit 0\n")
+
 READ_ONLY = {"rev-parse", "config", "diff", "diff-tree", "show", "cat-file", "blame", "status", "ls-files", "ls-tree",
              "merge-base", "rev-list", "log", "for-each-ref", "symbolic-ref", "var", "version", "check-attr", "grep",
              "ls-remote", "name-rev", "show-ref", "branch", "worktree", "remote", "stash", "describe", "hash-object",
@@ -260,7 +263,13 @@ def scenario(args):
                 p = os.path.join(hd, h)
                 open(p, "w").write(HOOK)
                 os.chmod(p, 0o755)
+            # a user hook that sees EVERY ref update git makes on the user's behalf: git-ai's own updates of
+            # refs/notes/ai* run with hooks switched off and must never show up here
+            p = os.path.join(hd, "reference-transaction")
+            open(p, "w").write(REFTX_HOOK)
+            os.chmod(p, 0o755)
             s.clock = 1767300000
+        hook_seen = {}
         cmds = gen_commands(r, r.range(6, opts.get("max_cmds", 14)))
         for c in cmds:
             if c[0] in ("E", "A"):
@@ -296,6 +305,18 @@ def scenario(args):
             t = max(plain.clock, prox.clock)
             plain.clock = prox.clock = t
             o1, o2 = observe(plain), observe(prox)
+            # user-hook journal: compared command by command.  When the USER's command is one that rewrites every ref
+            # (pack-refs, gc, ...), git itself includes refs/notes/ai* in its transaction — an allowed additional effect
+            # of the ref existing; any other mention of git-ai's refs in a user hook is a difference
+            for o_, sm_ in ((o1, plain), (o2, prox)):
+                full = o_["userhooks"].splitlines()
+                seen = hook_seen.setdefault(id(sm_), [0, []])
+                delta = full[seen[0]:]
+                seen[0] = len(full)
+                if argv and argv[0] in ("pack-refs", "gc", "repack", "prune", "maintenance"):
+                    delta = [l for l in delta if "refs/notes/ai" not in l]
+                seen[1].extend(delta)
+                o_["userhooks"] = "\n".join(seen[1])
             t = max(plain.clock, prox.clock)
             plain.clock = prox.clock = t
             diffs = []
